@@ -218,7 +218,7 @@ Print Assumptions C05_no_roots_exact.
    session fed the same puts (model: Deferred.v, C20), hence well-formed whenever the Finalize inside Close succeeded *)
 Theorem C05_deferred_is_session :
   forall (c : dcfg) (ops : list dop) (s : wstate),
-  dc_faults c = [] -> d_inner (d_run c d_init ops) = Some s -> existsb is_close ops = true ->
+  dc_faults c = [] -> dc_kids c = [] -> d_inner (d_run c d_init ops) = Some s -> existsb is_close ops = true ->
   exists s2 outs fo,
     session (dc_kind c) (eff_opts c) (dc_nilroots c) (dc_roots c) [d_puts ops] = Ok (s2, outs, fo) /\
     d_bytes c (d_run c d_init ops) = ws_file s2.
@@ -231,7 +231,7 @@ Theorem C05_deferred_output_wf :
   let ro := roots_opt (dc_nilroots c) (dc_roots c) in
   let stored := spec_stored (dc_kind c) o ro [d_puts ops] in
   let file := d_bytes c (d_run c d_init ops) in
-  dc_faults c = [] -> d_inner (d_run c d_init ops) = Some s -> existsb is_close ops = true ->
+  dc_faults c = [] -> dc_kids c = [] -> d_inner (d_run c d_init ops) = Some s -> existsb is_close ops = true ->
   exists s2 outs fo,
     session (dc_kind c) o (dc_nilroots c) (dc_roots c) [d_puts ops] = Ok (s2, outs, fo) /\ file = ws_file s2 /\
     (fo = ONil ->
